@@ -92,10 +92,11 @@ META = {
                 'rotation). thorough adds a systematic sweep of small '
                 'parameters',
         'note': 'trusted base: the reference model in props/c20.py; the only '
-                'disk fault injected is one transient rename / remove error '
-                'inside a rollover (8 % of the random cases: the failed '
-                'write is not owed, contiguity and later writes are); no '
-                'torn or short writes; the scheduling dimension of the technique does not '
+                'disk faults injected are one transient rename / remove error '
+                'inside a rollover or one failing flush (a tenth of the '
+                'random cases: the failed write is not owed - after a '
+                'failed flush it may still arrive, once - contiguity and '
+                'later writes are); no torn or short writes; the scheduling dimension of the technique does not '
                 'apply to this single-caller surface, its history dimension '
                 '(durable state across close/reopen/restart) does',
         'technique': _TECH + ' (history-driven reference-model check of '
